@@ -4,7 +4,7 @@ from vf.core import cZ, cbool, clist, cpair
 PID = "C14"
 MODULES = ["Prelude", "Sched", "C14_Model", "C14_Spec", "C14_Check"]
 PROPS_MODULE = "C14_Properties"
-THEOREMS = ["C14_pop_stable", "C14_strict", "C14_concurrent", "C14_unordered", "C14_wrap", "C14_spec_strict"]
+THEOREMS = ["C14_pop_stable", "C14_strict", "C14_strict_sync", "C14_concurrent", "C14_unordered", "C14_wrap", "C14_spec_strict"]
 EVAL = "C14_Check.eval"
 CLAUSES = ["agree", "only_ready", "strict", "unordered", "wrap", "conc_strict"]
 COQ_SHARD = 60
@@ -22,7 +22,8 @@ TRUSTED_BASE = [
     "except LoadOrStore of the cursor; fmt.Sprintf(\"%v\") of the ready list is injective on (identity, order) of endpoints",
 ]
 ASSUMPTIONS = [
-    "the ready set is stable during a window (the property's hypothesis); histories with readiness / server changes are used "
+    "the ready set is stable during a window (the property's hypothesis): no server added or removed, no disabled flag or "
+    "health changed — ClusterInfo.Sync calls that change none of these may occur anywhere in the window; histories with readiness / server changes are used "
     "only to validate the model (cursor per ready-list key, reset on server-set change)",
     "for policies without explicit subset the upstream order of each pick is an input (observed through an export): it comes "
     "from a sync.Map range whose order Go does not specify; the bound is stated in the number P of distinct orders used",
@@ -34,8 +35,9 @@ LABEL_MAP = "Pop:s.cluster.loadbalancer.LoadOrStore"
 TWO64 = 2 ** 64
 
 
-def rr(servers, ready, subset, all_, n, force=None):
-    c = {"kind": "rr", "servers": servers, "ready": ready, "subset": subset, "all": all_, "n": n}
+def rr(servers, ready, subset, all_, n, force=None, disabled=(), resync=0):
+    c = {"kind": "rr", "servers": servers, "ready": ready, "subset": subset, "all": all_, "n": n,
+         "disabled": list(disabled), "resync": resync}
     if force:
         c["force"] = {"es": force[0], "v": str(force[1])}
     return c
@@ -48,6 +50,14 @@ def corpus():
         cs.append(rr(srv, srv, srv, False, 3 * k + 1))
         cs.append(rr(srv, srv, [], True, 3 * k + 1))
         cs.append(rr(srv, srv, list(reversed(srv)), False, 25))
+    # re-Sync of an unchanged server list between picks ({2 picks, Sync} repeated; also every pick, every 3):
+    # the ready set is stable, so the strict window clause spans the Syncs.  0 / 1 / 2 disabled servers,
+    # outside and inside the policy's subset
+    for dis, sub in (([], [0, 1, 2]), ([3], [0, 1, 2]), ([3, 4], [0, 1, 2]), ([2], [0, 1, 2, 3]), ([1, 4], [0, 1, 2, 3]),
+                     ([3], [2, 0, 1])):
+        for every in (2, 1, 3):
+            cs.append(rr([0, 1, 2, 3, 4], [0, 1, 2, 3, 4], sub, False, 24, disabled=dis, resync=every))
+    cs.append(rr([0, 1, 2, 3], [0, 1, 2, 3], [], True, 30, disabled=[3], resync=2))
     cs.append(rr([0, 1, 2, 3], [0, 1, 3], [3, 2, 9, 0, 1], False, 20))       # unready + unknown endpoint in the subset
     cs.append(rr([0, 1, 2], [], [0, 1, 2], False, 3))                          # nothing ready
     cs.append(rr([0, 1, 2], [1], [0, 1, 2], False, 5))                         # one ready: fast path
@@ -65,6 +75,10 @@ def corpus():
         {"op": "ready", "e": 2, "b": False}, {"op": "pick"}, {"op": "pick"}, {"op": "servers", "es": [0, 1, 2, 3]},
         {"op": "pick"}, {"op": "pick", "all": True}, {"op": "ready", "e": 3, "b": True}, {"op": "pick", "all": True},
         {"op": "servers", "es": [1, 2, 3]}, {"op": "pick"}, {"op": "pick", "all": True}, {"op": "ready", "e": 7, "b": True},
+        {"op": "pick"}, {"op": "servers", "es": [3, 2, 1], "dis": [], "edit": 2}, {"op": "pick"}, {"op": "pick"},
+        {"op": "servers", "es": [1, 2, 3], "dis": [3], "edit": 0}, {"op": "pick"}, {"op": "pick"},
+        {"op": "servers", "es": [1, 2, 3], "dis": [3], "edit": 3}, {"op": "pick"}, {"op": "pick"},
+        {"op": "servers", "es": [1, 2, 3], "dis": [], "edit": 3}, {"op": "pick", "all": True}, {"op": "pick", "all": True},
         {"op": "cursor", "es": [1, 2], "v": str(TWO64 - 1)}, {"op": "pick"}, {"op": "pick"}]})
     # concurrent pickers; every case starts on a ready list whose counter does not exist yet.
     # "all pickers reach the map access before any proceeds", then they proceed in turn:
@@ -104,7 +118,16 @@ def gen_rr(rng):
         rd = [e for e in subset if e in ready]
         if len(rd) >= 2:
             force = (rd, rng.choice([TWO64 - 1, TWO64 - 2, TWO64 - rng.randint(1, 30), rng.randint(0, 2 ** 40), 2 ** 63]))
-    return rr(servers, ready, subset, all_, n, force)
+    disabled = []
+    resync = 0
+    if rng.chance(1, 2):
+        resync = rng.choice([1, 2, 2, 3, 5])
+        nd = rng.choice([0, 1, 1, 2])
+        # disabled servers are taken from the not-ready extras first (outside the ready set), else from the ready ones
+        # as long as two stay ready
+        pool = [x for x in servers if x not in ready] + rng.shuffle(ready)[:max(0, len(ready) - 2)]
+        disabled = pool[:nd]
+    return rr(servers, ready, subset, all_, n, force, disabled, resync)
 
 
 def gen_hist(rng):
@@ -113,6 +136,9 @@ def gen_hist(rng):
     subset = rng.sample(servers + [rng.randint(0, 6)], rng.randint(1, ns))
     subset = [s for i, s in enumerate(subset) if s not in subset[:i]]
     ready = rng.sample(servers, rng.randint(ns - 1, ns))
+    cur_srv = list(servers)
+    cur_dis = rng.sample(servers, rng.choice([0, 0, 1])) if ns > 2 else []
+    init_dis = list(cur_dis)
     ops = []
     for _ in range(rng.randint(10, 60)):
         r = rng.below(100)
@@ -121,15 +147,24 @@ def gen_hist(rng):
         elif r < 85:
             ops.append({"op": "ready", "e": rng.randint(0, 6) if rng.chance(1, 4) else rng.below(ns), "b": rng.chance(4, 5)})
         elif r < 91:
-            es = rng.sample(list(range(ns + 1)), rng.randint(2, ns + 1))
-            ops.append({"op": "servers", "es": es})
-            for e in es:
-                if rng.chance(2, 3):
-                    ops.append({"op": "ready", "e": e, "b": True})
+            if rng.chance(3, 5):
+                # servers and disabled flags as they are: identical object or unrelated edits
+                ops.append({"op": "servers", "es": rng.shuffle(cur_srv), "dis": list(cur_dis), "edit": rng.choice([0, 0, 1, 2, 3])})
+            elif rng.chance(1, 2):
+                # only the disabled flags change (no server added / removed: cursors stay)
+                cur_dis = rng.sample(cur_srv, rng.choice([0, 1, 1, 2]))
+                ops.append({"op": "servers", "es": list(cur_srv), "dis": list(cur_dis), "edit": rng.choice([0, 1])})
+            else:
+                cur_srv = rng.sample(list(range(ns + 1)), rng.randint(2, ns + 1))
+                cur_dis = [e for e in cur_dis if e in cur_srv and rng.chance(1, 2)]
+                ops.append({"op": "servers", "es": list(cur_srv), "dis": list(cur_dis), "edit": rng.choice([0, 1])})
+                for e in cur_srv:
+                    if rng.chance(2, 3):
+                        ops.append({"op": "ready", "e": e, "b": True})
         else:
             ops.append({"op": "cursor", "es": rng.sample(subset, min(len(subset), rng.randint(2, 3))),
                         "v": str(rng.choice([TWO64 - 1, TWO64 - 2, 5, 2 ** 32]))})
-    return {"kind": "hist", "servers": servers, "ready": ready, "subset": subset, "ops": ops}
+    return {"kind": "hist", "servers": servers, "ready": ready, "disabled": init_dis, "subset": subset, "ops": ops}
 
 
 def conc(subset, phases):
@@ -192,7 +227,7 @@ def zl(l):
 def coq_case(case, obs):
     k = case["kind"]
     if k == "rr":
-        ready = [e for e in case["ready"] if e in case["servers"]]
+        ready = [e for e in case["ready"] if e in case["servers"] and e not in case.get("disabled", [])]
         ready = [e for i, e in enumerate(ready) if e not in ready[:i]]
         force = "None"
         if case.get("force"):
@@ -215,14 +250,15 @@ def coq_case(case, obs):
             elif o["op"] == "ready":
                 ops.append("(OReady %s %s)" % (cZ(o["e"]), cbool(o["b"])))
             elif o["op"] == "servers":
-                ops.append("(OServers %s)" % zl(o["es"]))
+                ops.append("(OServers %s %s)" % (zl(o["es"]), zl(o.get("dis", []))))
             else:
                 ops.append("(OCursor %s %s)" % (zl(o["es"]), cZ(int(o["v"]))))
         res = [(picks[i]["r"] if i < len(picks) else -9) for i in range(len(case["ops"]))]
         # initial readiness is applied as leading OReady ops (they report -2)
         ready = [e for e in case["ready"]]
         pre = ["(OReady %s true)" % cZ(e) for e in ready]
-        return "(CHist %s %s %s)" % (zl(case["servers"]), clist(pre + ops), zl([-2] * len(pre) + res))
+        return "(CHist %s %s %s %s)" % (zl(case["servers"]), zl(case.get("disabled", [])), clist(pre + ops),
+                                        zl([-2] * len(pre) + res))
     phs = []
     ophs = obs.get("phases", []) if "panic" not in obs else []
     for i, ph in enumerate(case["phases"]):
@@ -250,9 +286,9 @@ def nontrivial_key(case, obs):
         picks = obs["picks"]
         if not picks:
             return None
-        rd = [e for e in picks[0]["order"] if e in case["ready"] and e in case["servers"]]
+        rd = [e for e in picks[0]["order"] if e in case["ready"] and e in case["servers"] and e not in case.get("disabled", [])]
         if len(rd) >= 2 and len(picks) >= 2 * len(rd):
-            return ("r", tuple(rd), case["all"], len(picks), case.get("force", {}).get("v") if case.get("force") else None,
+            return ("r", tuple(rd), case["all"], len(picks), case.get("resync", 0), tuple(case.get("disabled", [])), case.get("force", {}).get("v") if case.get("force") else None,
                     tuple(tuple(p["order"]) for p in picks[:50]))
         return None
     if k == "hist":
@@ -269,12 +305,14 @@ def stats(case, obs):
     k = case["kind"]
     if k == "rr":
         picks = obs["picks"]
-        nr = len([e for e in (picks[0]["order"] if picks else []) if e in case["ready"] and e in case["servers"]])
+        nr = len([e for e in (picks[0]["order"] if picks else []) if e in case["ready"] and e in case["servers"]
+                  and e not in case.get("disabled", [])])
         P = len({tuple(p["order"]) for p in picks})
         n = len(picks)
         return ["rr:%s" % ("all" if case["all"] else "explicit"), "rr:k=%d" % nr, "rr:orders=%d" % min(P, 9),
                 "rr:N<=%d" % (10 if n <= 10 else 100 if n <= 100 else 1000 if n <= 1000 else 5000)] + \
-               (["rr:forced-cursor"] if case.get("force") else [])
+               (["rr:forced-cursor"] if case.get("force") else []) + \
+               (["rr:resync-every-%d" % case["resync"], "rr:disabled=%d" % len(case.get("disabled", []))] if case.get("resync") else [])
     if k == "hist":
         labs = ["hist:len<=%d" % (10 * ((len(case["ops"]) + 9) // 10))]
         for o, p in zip(case["ops"], obs["picks"]):
